@@ -9,7 +9,7 @@ from ..algebra import Extractor, Rat, Unsupported
 from ..cfg import CFG
 from ..core import Ctx
 from ..model import body_stmts, canon, dotted, kwarg, norm, walk_no_nested
-from .common import assigned_value, cmp_other, enclosing, is_cmp, pnorm, prog, resolve_local, source_order, stores_to
+from .common import assigned_value, check_sampler_init, cmp_other, enclosing, is_cmp, pnorm, prog, resolve_local, source_order, stores_to
 
 CG = "Continuum.compute_gamma"
 JOBS = {"_compute_best_alignment_job": "get_best_alignment", "_compute_soft_alignment_job": "get_best_soft_alignment",
@@ -163,6 +163,7 @@ def run(ctx: Ctx):
     ok = ok and inode is not None and all(cfg.dominates(inode, cfg.node_containing(c)) for c in subs)
     ctx.check(ok, "R-C05-2", f, inits[0] if inits else None, "sampler.init_sampling(self, ground_truth_annotators) runs unconditionally before every job",
               bad_detail="the sampler is not (unconditionally) initialised with this continuum and the ground-truth annotators before sampling", key="init")
+    check_sampler_init(ctx, "R-C05-2")
     dsam = [i for i in f.node.body if isinstance(i, ast.If) and norm(i.test) == f"{samp} is None"]
     okd = len(dsam) == 1 and any(isinstance(s, ast.Assign) and norm(s.targets[0]) == samp and norm(s.value) == "StatisticalContinuumSampler()" for s in dsam[0].body)
     ctx.check(okd, "R-C05-2", f, dsam[0] if dsam else None, "default sampler: StatisticalContinuumSampler()", key="default-sampler")
